@@ -34,6 +34,8 @@ type rewriter struct {
 	yieldFuncDecls  map[*ast.FuncDecl]bool
 	yieldFuncLits   map[*ast.FuncLit]bool
 	textComments    textComments // of the file written last, see patchTextComments
+	embeddedIters   map[token.Pos]bool
+	scannedFiles    map[*ast.File]bool
 	comments        []*ast.CommentGroup
 }
 
@@ -172,6 +174,7 @@ func (r *rewriter) rewriteFile(f *loader.File, printer FilePrinter) {
 
 	r.yieldFuncDecls = map[*ast.FuncDecl]bool{}
 	r.yieldFuncLits = map[*ast.FuncLit]bool{}
+	r.collectEmbeddedIters(pkg)
 	r.collectYieldFunc(pkg, f) // collect func with yield/yieldFrom call
 
 	// 2. edit file
@@ -291,6 +294,47 @@ func (r *rewriter) patchTextComments(filename string) {
 		src = append(src[:in.offset:in.offset], append([]byte(in.text), src[in.offset:]...)...)
 	}
 	panicIf(os.WriteFile(filename, src, 0o644))
+}
+
+// the embedded fields written as co.Iter[T] (by the position of their name) in the files of the package,
+// collected before any of them is rewritten: they are called Iterator afterwards, see rewriteIter
+func (r *rewriter) collectEmbeddedIters(pkg loader.Pkg) {
+	if r.embeddedIters == nil {
+		r.embeddedIters = map[token.Pos]bool{}
+		r.scannedFiles = map[*ast.File]bool{}
+	}
+	for _, file := range pkg.Syntax {
+		if r.scannedFiles[file] {
+			continue
+		}
+		r.scannedFiles[file] = true
+		ast.Inspect(file, func(n ast.Node) bool {
+			st, _ := n.(*ast.StructType)
+			if st == nil {
+				return true
+			}
+			for _, f := range st.Fields.List {
+				if len(f.Names) > 0 {
+					continue
+				}
+				ty := f.Type
+				if star, ok := ty.(*ast.StarExpr); ok {
+					ty = star.X
+				}
+				idx, _ := ty.(*ast.IndexExpr)
+				if idx == nil || !r.isIterator(pkg.TypeOf(idx.X)) {
+					continue
+				}
+				switch x := idx.X.(type) {
+				case *ast.Ident:
+					r.embeddedIters[x.Pos()] = true
+				case *ast.SelectorExpr:
+					r.embeddedIters[x.Sel.Pos()] = true
+				}
+			}
+			return true
+		})
+	}
 }
 
 // Yield / YieldFrom are stubs, a reference surviving the rewriting would drop its values silently,
@@ -519,14 +563,9 @@ func (r *rewriter) rewriteIter(c *astutil.Cursor, pkg loader.Pkg) bool {
 	case *ast.Ident:
 		// an embedded co.Iter[T] is the field Iter (b.Iter, Box{Iter: it}), embedding seq.Iterator[T] instead
 		// (which keeps the promoted MoveNext / Current) makes it the field Iterator: rename the references
-		if field, _ := pkg.TypeInfo().Uses[n].(*types.Var); field != nil && field.Embedded() && n.Name == cstAPIReturnType {
-			ty := field.Type()
-			if ptr, ok := ty.(*types.Pointer); ok {
-				ty = ptr.Elem()
-			}
-			if r.isIterator(ty) {
-				n.Name = cstIterator
-			}
+		// (not when it's embedded through an alias, type Iter = co.Iter[int]: the alias keeps its name)
+		if field, _ := pkg.TypeInfo().Uses[n].(*types.Var); field != nil && field.Embedded() && r.embeddedIters[field.Pos()] {
+			n.Name = cstIterator
 		}
 		return true
 	}
